@@ -1,10 +1,12 @@
 (* Scrunch/ModelBits.v — bit vectors BY INTERFACE, and the hand-written binary searches.
    Definitions only.
 
-   scrunch/src/bit_vector/{mod,rrr,sparse}.rs: the encodings (RRR blocks, the sparse B-tree of
-   deltas, the reference arrays) are NOT modelled; a bit vector is the plain `list bool` it
-   encodes and `access`/`rank`/`select` are stated directly on that list.  The correspondence
-   check compares every implementation with this interface at every index.
+   scrunch/src/bit_vector/mod.rs: here a bit vector is the plain `list bool` it encodes and
+   `access`/`rank`/`select` are stated directly on that list; this is the specification every
+   implementation is compared with at every index by the correspondence check.  The two encodings
+   CompressedDocument uses are transcribed in ModelSparse.v (sparse.rs) and ModelRRR.v (rrr.rs)
+   and proved equal to this specification (ProofsSparse*.v, ProofsRRR*.v); cf_rrr.rs and the
+   reference vectors are compared only.
 
    What IS transcribed: scrunch/src/binary_search.rs (`binary_search_by`, `partition_by`) and the
    default methods of `trait BitVector` built on it (`select`, `rank0`, `select0`), which
